@@ -184,14 +184,24 @@ def _convert_ifexp(node: ast.IfExp) -> libsbml.ASTNode:
     return sbml_node
 
 
-def _convert_unary_call(typ: int, arg: ast.expr) -> libsbml.ASTNode:
+def _convert_unary_call(typ: int, args: list[ast.expr]) -> libsbml.ASTNode:
+    if len(args) == 2 and typ == libsbml.AST_FUNCTION_LN:
+        # math.log(x, base)
+        sbml_node = libsbml.ASTNode(libsbml.AST_FUNCTION_LOG)
+        sbml_node.addChild(_convert_node(args[1]))
+        sbml_node.addChild(_convert_node(args[0]))
+        return sbml_node
+    if len(args) != 1:
+        msg = f"Function call with {len(args)} arguments"
+        raise NotImplementedError(msg)
+
     sbml_node = libsbml.ASTNode(typ)
     if typ == libsbml.AST_FUNCTION_LOG:
         # MathML log needs its base spelled out
         base = libsbml.ASTNode(libsbml.AST_REAL)
         base.setValue(10.0)
         sbml_node.addChild(base)
-    sbml_node.addChild(_convert_node(arg))
+    sbml_node.addChild(_convert_node(args[0]))
     return sbml_node
 
 
@@ -199,7 +209,7 @@ def _convert_direct_call(node: ast.Call) -> libsbml.ASTNode:
     func = cast(ast.Name, node.func).id
 
     if (typ := UNARY.get(func)) is not None:
-        return _convert_unary_call(typ, node.args[0])
+        return _convert_unary_call(typ, node.args)
     if (typ := BINARY.get(func)) is not None:
         sbml_node = libsbml.ASTNode(typ)
         sbml_node.addChild(_convert_node(node.args[0]))
@@ -223,7 +233,7 @@ def _convert_library_call(node: ast.Call) -> libsbml.ASTNode:
 
     if parent in ("math", "np", "numpy"):
         if (typ := UNARY.get(attr)) is not None:
-            return _convert_unary_call(typ, node.args[0])
+            return _convert_unary_call(typ, node.args)
         if (typ := BINARY.get(attr)) is not None:
             sbml_node = libsbml.ASTNode(typ)
             sbml_node.addChild(_convert_node(node.args[0]))
